@@ -76,13 +76,70 @@ def classify_site(s):
     return None, "unrecognised operand %s" % x
 
 
+BENIGN_GUARDS = {
+    # the arms a well-formed frame has already passed when it reaches the limit test
+    "!(err!=nil)", "!(n<8)", "!(length==0&&index==-1&&!ok)", "!(length!=n-8)",
+}
+GET_TESTS = ('request.Method=="GET"', 'convert.ToUnsafeString(ctx.Request.Header.Method())=="GET"',
+             'string(ctx.Request.Header.Method())=="GET"', 'ctx.IsGet()')
+NOTGET_TESTS = ('request.Method!="GET"', 'convert.ToUnsafeString(ctx.Request.Header.Method())!="GET"')
+CHUNKED_TESTS = ("request.ContentLength<0", "request.ContentLength==-1", "ctx.Request.Header.ContentLength()<0",
+                 "ctx.Request.Header.ContentLength()==-1")
+DECLARED_TESTS = ("request.ContentLength>=0", "ctx.Request.Header.ContentLength()>=0")
+
+
+def guard_fn(g):
+    """a path condition (source text) -> predicate over the class of a request (get, flag, chunked), or None
+    when it is not one the model knows (then the site counts as unconditional and is listed as unresolved)"""
+    neg = False
+    while g.startswith("!(") and g.endswith(")"):
+        g, neg = g[2:-1], not neg
+    if g.startswith("!") and g[1:].isidentifier():
+        g, neg = g[1:], not neg
+    if g in GET_TESTS:
+        f = lambda get, flag, chunked: get
+    elif g in NOTGET_TESTS:
+        f = lambda get, flag, chunked: not get
+    elif g in CHUNKED_TESTS:
+        f = lambda get, flag, chunked: chunked
+    elif g in DECLARED_TESTS:
+        f = lambda get, flag, chunked: not chunked
+    elif g == "ok":
+        f = lambda get, flag, chunked: not flag
+    else:
+        return None
+    return (lambda get, flag, chunked: not f(get, flag, chunked)) if neg else f
+
+
+class Sites:
+    """for each transport the comparison sites with the path conditions under which they are evaluated;
+    letters(t, get, flag, chunked) = the quantities compared on the path of that class of request"""
+
+    def __init__(self):
+        self.by_t = {t: [] for t in TRANSPORTS}
+
+    def add(self, t, letter, guards):
+        self.by_t[t].append((letter, guards))
+
+    def letters(self, t, get=False, flag=False, chunked=False):
+        out = ""
+        for letter, guards in self.by_t[t]:
+            if all(g(get, flag, chunked) for g in guards) and letter not in out:
+                out += letter
+        return out
+
+    def class_dependent(self, t):
+        return any(guards for _, guards in self.by_t[t])
+
+
 def read_sites(ctx):
     rc, obs, err = hv.run_harness("c13", [{"id": 0, "op": "sites", "repo": hv.REPO}], timeout=120)
     if rc != 0 or not obs or obs[0].get("env"):
         raise hv.EnvError("cannot read the comparison sites: %s %s" % (err[-300:], obs[:1]))
-    table = {t: "" for t in TRANSPORTS}
+    sites = Sites()
     unresolved = []
     seen_owner = set()
+    has_consistency_arm = False
     for s in obs[0].get("sites") or []:
         owners = SITE_OWNERS.get((s["file"], s["func"]))
         if owners is None:
@@ -93,18 +150,28 @@ def read_sites(ctx):
         if letter is None:
             unresolved.append(dict(s, reason=why))
             continue
+        guards = []
+        for g in s.get("guards") or []:
+            if g in BENIGN_GUARDS:
+                continue
+            f = guard_fn(g)
+            if f is None:
+                unresolved.append(dict(s, reason="evaluated under a condition the model does not know: " + g))
+            else:
+                guards.append(f)
+        if letter == "=":
+            has_consistency_arm = True
+            continue
         for t in owners:
-            if letter not in table[t]:
-                table[t] += letter
+            sites.add(t, letter, guards)
     for k, owners in SITE_OWNERS.items():
         if k not in seen_owner:
             unresolved.append({"file": k[0], "func": k[1], "reason": "no comparison with MaxRequestLength found"})
     # Model/Limit.v has the udp handler drop datagrams whose header disagrees with their size
-    if "=" not in table["udp"]:
+    if not has_consistency_arm:
         unresolved.append({"file": "rpc/udp/handler.go", "func": "receive",
                            "reason": "the arm  case length != n-8  that Model/Limit.v mirrors is missing"})
-    table["udp"] = table["udp"].replace("=", "")
-    return table, unresolved, obs[0].get("sites") or []
+    return sites, unresolved, obs[0].get("sites") or []
 
 
 # ------------------------------------------------------------------ cases
@@ -190,6 +257,36 @@ def gen_cases(ctx):
                     add(op="raw", t=t, limit=limit, decl="smaller", actual=a, declared=d)
                 for d in larger_choices(limit, a, thorough, cap):
                     add(op="raw", t=t, limit=limit, decl="larger", actual=a, declared=d)
+    # request methods other than POST on the HTTP servers (the handlers accept any; GET is singled out in the code)
+    mlimits = [10, 4096] if not thorough else limits
+    for t in ("http", "fasthttp"):
+        for limit in mlimits:
+            for a in sizes_for(limit):
+                for m in ("GET", "PUT", "DELETE", "PATCH", "OPTIONS", "HEAD"):
+                    add(op="raw", t=t, limit=limit, decl="truthful", actual=a, declared=a, method=m)
+                    add(op="raw", t=t, limit=limit, decl="absent", actual=a, declared=-1, method=m)
+                add(op="raw", t=t, limit=limit, decl="absent", actual=a, declared=min(a, max(0, limit - 1)),
+                    extra="cl+chunked", method="GET")
+    # hand-made frames whose index word has its top bit set (the stock clients never send one): same limit
+    for t in ("tcp", "unix", "udp", "ws"):
+        for limit in limits:
+            cap = UDP_MAX_BODY if t == "udp" else None
+            if t == "udp" and limit > 60000:
+                limit = 60000
+            for a in sizes_for(limit, cap):
+                add(op="raw", t=t, limit=limit, decl="truthful", actual=a, declared=a, flag=True)
+                if t in ("tcp", "unix"):
+                    add(op="raw", t=t, limit=limit, decl="split", actual=a, declared=a, flag=True)
+    # the limit is configured after the service has been bound
+    for t in TRANSPORTS:
+        for limit in ([10, 4096] if not thorough else [1, 10, 100, 4096, 60000]):
+            cap = UDP_MAX_BODY if t == "udp" else None
+            for a in sizes_for(limit, cap):
+                add(op="client", t=t, limit=limit, decl="truthful", actual=a, declared=a, via="request", late=True)
+                if t != "mock":
+                    add(op="raw", t=t, limit=limit, decl="truthful", actual=a, declared=a, late=True)
+                if t in ("http", "fasthttp", "ws"):
+                    add(op="raw", t=t, limit=limit, decl="absent", actual=a, declared=-1, late=True)
     # dedupe (the udp cap folds limits and sizes together)
     seen, out = set(), []
     for c in cases:
@@ -211,11 +308,11 @@ def attach_headers(cases):
         if c["op"] != "raw":
             continue
         if c["t"] in ("tcp", "unix"):
-            lines.append("H sock %d %d" % (c["declared"], INDEX))
+            lines.append("H sock %d %d" % (c["declared"], INDEX + ((1 << 31) if c.get("flag") else 0)))
         elif c["t"] == "udp":
-            lines.append("H udp %d %d" % (c["declared"], INDEX))
+            lines.append("H udp %d %d" % (c["declared"], INDEX + ((1 << 15) if c.get("flag") else 0)))
         elif c["t"] == "ws":
-            lines.append("H ws %d" % INDEX)
+            lines.append("H ws %d" % (INDEX + ((1 << 31) if c.get("flag") else 0)))
         else:
             continue
         who.append(c)
@@ -313,7 +410,8 @@ def property_oracle(c, o, decoded):
     io, fn = o.get("io", 0), o.get("fn", 0)
     n = framed_len(c)
     reply = decode_reply(c, o, decoded)
-    honest = c["decl"] in HONEST
+    # a websocket message whose index word has the flag bit set is an invalid frame whatever its size
+    honest = c["decl"] in HONEST and not (c["t"] == "ws" and c.get("flag"))
     saw_oversize = [l for l in o.get("io_lens", []) if l > limit]
     if n is None or n <= limit:
         if saw_oversize:
@@ -358,11 +456,18 @@ def property_oracle(c, o, decoded):
 
 def key_for(c, kind):
     k = KNOWN_KEYS.get((c["t"], c["decl"], kind))
-    if k:
+    if k and not (c.get("method") or c.get("flag") or c.get("late")):
         return k
     if kind == "reject-lost-to-connection-teardown":
         return "socket-reject-then-close-loses-too-large-error"
-    return "%s-%s-%s" % (c["t"], c["decl"], kind)
+    q = c["t"]
+    if c.get("method") and c["method"] != "POST":
+        q += "-" + c["method"]
+    if c.get("flag"):
+        q += "-flagged-index"
+    if c.get("late"):
+        q += "-limit-set-after-bind"
+    return "%s-%s-%s" % (q, c["decl"], kind)
 
 
 # ------------------------------------------------------------------ running
@@ -506,12 +611,17 @@ def run(ctx):
     hv.build_modelrun("c13")
 
     # ---- T1
-    table, unresolved, raw_sites = read_sites(ctx)
+    sites, unresolved, raw_sites = read_sites(ctx)
+    table = {t: sites.letters(t) for t in TRANSPORTS}       # the class of a POST / stock frame announcing its length
+    classes = [(g, f, ch) for g in (False, True) for f in (False, True) for ch in (False, True)]
+    ctx.note("limit_sites_by_class", {t: {"%s%s%s" % ("GET," if g else "", "flag," if f else "", "chunked" if ch else "declared"):
+                                          sites.letters(t, g, f, ch) or "-" for g, f, ch in classes}
+                                      for t in TRANSPORTS if sites.class_dependent(t)} or "no site depends on the class of the request")
     both = hv.run_model("c13", ["T"])[0].split(" | ")
     pinned = dict(kv.split("=") for kv in both[0].split(" "))
     original = dict(kv.split("=") for kv in both[1].split(" "))
     ctx.note("limit_sites", {t: table[t] or "-" for t in TRANSPORTS})
-    ctx.note("limit_sites_source", [{k: s[k] for k in ("file", "func", "lhs", "op", "rhs", "before_dispatch")} for s in raw_sites])
+    ctx.note("limit_sites_source", [{k: s.get(k) for k in ("file", "func", "lhs", "op", "rhs", "before_dispatch", "guards")} for s in raw_sites])
     ctx.note("limit_sites_equal_pinned_table", {t: sorted(table[t]) == sorted(pinned[t].replace("-", "")) for t in TRANSPORTS})
     ctx.note("limit_sites_equal_original_prefix_table", {t: sorted(table[t]) == sorted(original[t].replace("-", "")) for t in TRANSPORTS})
     if unresolved:
@@ -533,8 +643,11 @@ def run(ctx):
         ctx.report("executor-died:%s-%s" % (dead[0]["t"], dead[0]["decl"]),
                    "the executor process died while running %d case(s), first %s: %s" % (len(dead), dead[0], err[-400:]),
                    {"case": dead[0], "stderr": err[-2000:], "failing_input": True})
-    lines = ["A %s %s %d %s %d %d" % (c["t"], table[c["t"]] or "-", c["limit"], model_decl(c), c["actual"],
-                                      1 if byid[c["id"]].get("valid") else 0) for c in todo]
+    def cls(c):
+        return (c.get("method") == "GET", bool(c.get("flag")), model_decl(c) == "-")
+
+    lines = ["A %s %s %d %d %d %s %d %d" % (c["t"], sites.letters(c["t"], *cls(c)) or "-", cls(c)[0], cls(c)[1], c["limit"],
+                                            model_decl(c), c["actual"], 1 if byid[c["id"]].get("valid") else 0) for c in todo]
     answers = hv.run_model("c13", lines)
     agree = by_refusal = inconclusive = agree_race = 0
     disagreements = []
@@ -542,11 +655,18 @@ def run(ctx):
     for c, line in zip(todo, answers):
         o = byid[c["id"]]
         m = parse_model(line)
-        covered[c["t"]] = m["covers"]
+        covered[c["t"]] = "0" if (m["covers"] == "0" or covered.get(c["t"]) == "0") else "1"
         seen = observed_projection(c, o, decoded)
         want = model_projection(m, c, o)
         over = (m["framed"] != "-" and int(m["framed"]) > c["limit"])
-        canon = "%s|%d|%s|%d|%d|%s|%s" % (c["t"], c["limit"], c["decl"], c["actual"], c["declared"], c["op"], c.get("via", c.get("extra", "")))
+        canon = "%s|%d|%s|%d|%d|%s|%s|%s|%s|%s" % (c["t"], c["limit"], c["decl"], c["actual"], c["declared"], c["op"],
+                                                    c.get("via", c.get("extra", "")), c.get("method", ""), c.get("flag", ""), c.get("late", ""))
+        if c.get("method"):
+            ctx.bump("by_method", c["method"])
+        if c.get("flag"):
+            ctx.bump("flagged_index_frames")
+        if c.get("late"):
+            ctx.bump("limit_set_after_bind")
         ctx.count_case(canon, nontrivial=(c["actual"] > c["limit"] or c["declared"] > c["limit"]))
         ctx.bump("by_transport", c["t"])
         ctx.bump("by_declaration", c["decl"])
@@ -585,6 +705,8 @@ def run(ctx):
     ctx.note("theorems_in_force", {t: ("C13_never_processed_pinned / C13_never_processed (full)" if covered.get(t) == "1" else
                                        "NONE: the handler's sites do not cover the request body (C13_never_processed_iff_covered says the "
                                        "property is false of this table)") for t in TRANSPORTS})
+    ctx.note("extra_families", "HTTP methods GET PUT DELETE PATCH OPTIONS HEAD with declared and chunked bodies (and GET chunked+Content-Length); "
+             "raw tcp/unix/udp/websocket frames whose index word has its top bit set (valid checksum); MaxRequestLength set after Bind")
     ctx.note("rule", "transports x limits %s x sizes {limit-1, limit, limit+1, 10*limit} x declarations {truthful (real client via "
              "Request and via Invoke, raw peer), split writes, absent (chunked / fragmented, also chunked+Content-Length), smaller, "
              "larger}; non-trivial = the body sent or the length declared exceeds the limit; distinct by "
@@ -592,12 +714,17 @@ def run(ctx):
 
     # ---- decide
     reported = set()
+    reported_base = set()
 
     def report_fail(c, o, kind, text, seen=None, want=None, line=None):
         key = key_for(c, kind)
-        if key in reported:
-            return
+        base = (c["t"], c["decl"], kind)
+        qualified = bool(c.get("method") or c.get("flag") or c.get("late"))
+        if key in reported or (qualified and base in reported_base):
+            return      # one key per defect: a failure that shows with a plain request is not repeated per method / flag
         reported.add(key)
+        if not qualified:
+            reported_base.add(base)
         ctx.report(key, "%s %s" % (c["t"], text),
                    {"case": {k: c[k] for k in c}, "observed": o, "model": line, "observed_projection": seen,
                     "model_projection": want, "failing_input": True})
@@ -613,8 +740,13 @@ def run(ctx):
         ctx.note("disagreeing_cases", len(disagreements))
         ctx.note("first_disagreement", {"case": {k: disagreements[0][0][k] for k in disagreements[0][0] if k != "hdr"},
                                         "observed": disagreements[0][2], "model": disagreements[0][3]})
-    if unexplained:
-        # the code diverged from the model on cases where the property itself still holds
+    # the property oracle on every case, agreeing or not (catches a model wrong the same way as the code)
+    for c in todo:
+        for kind, text in property_oracle(c, byid[c["id"]], decoded):
+            report_fail(c, byid[c["id"]], kind, text)
+    if unexplained and not ctx.violations:
+        # the code diverged from the model on cases where the property itself still holds, and no case of the
+        # whole run fails the property: the correspondence is what no longer checks
         c, o, seen, want, line = unexplained[0]
         ctx.report("correspondence", "Model/Limit.v no longer matches the handlers (theorems C13_* not transferred): "
                    "%s limit=%d %s sent=%d declared=%d: observed [%s], model [%s]"
@@ -622,10 +754,6 @@ def run(ctx):
                    {"case": c, "observed": o, "model": line, "failing_input": False,
                     "correspondence": "Limit.admission/serve/client_decode vs rpc/*/handler.go + transport.go",
                     "disagreeing_cases": len(disagreements), "without_property_failure": len(unexplained)})
-    # the property oracle on every case, agreeing or not (catches a model wrong the same way as the code)
-    for c in todo:
-        for kind, text in property_oracle(c, byid[c["id"]], decoded):
-            report_fail(c, byid[c["id"]], kind, text)
     # a site the extractor could not account for, and no failing input found by the run above
     if unresolved and not ctx.violations:
         ctx.report("limit-sites", "a comparison with MaxRequestLength is not one the model knows: %s" % json.dumps(unresolved)[:400],
